@@ -57,6 +57,18 @@ class DirectCollocation(SamplingMethod):
         self.degree = degree
         self.tau = collocation_points(degree, scheme)
         [self.C, self.D, self.B] = collocation_coeff(self.tau)
+        # Quadrature weights: use the interpolatory rule on the collocation points themselves.
+        # collocation_coeff integrates the Lagrange basis on {0, tau}; the weight it assigns to the
+        # extra node 0 is dropped, which is harmless (that weight is zero) except for the one-point
+        # Radau rule, where half of the weight was lost (integral(1) returned T/2).
+        B = []
+        for j in range(degree):
+            p = np.poly1d([1])
+            for r in range(degree):
+                if r != j:
+                    p *= np.poly1d([1, -self.tau[r]]) / (self.tau[j] - self.tau[r])
+            B.append(float(np.polyint(p)(1.0)))
+        self.B = DM(B).T
         self.clean()
 
     def clean(self):
